@@ -47,7 +47,7 @@ func c10e2e(args []string) error {
 		}
 		k++
 		h := k % 2
-		ext := map[string]string{"html": "html", "json": "json", "xml": "xml", "sitemap": "xml", "s3": "xml", "m3u8-master": "m3u8", "m3u8-media": "m3u8", "pdf": "pdf", "text": "txt"}[in.Type]
+		ext := map[string]string{"html": "html", "html-script": "html", "html-lists": "html", "json": "json", "xml": "xml", "sitemap": "xml", "s3": "xml", "m3u8-master": "m3u8", "m3u8-media": "m3u8", "pdf": "pdf", "text": "txt"}[in.Type]
 		uri := fmt.Sprintf("/c10/h%d.%s", k, ext)
 		if in.Type == "s3" {
 			uri += "?list-type=2&delimiter=/"
